@@ -20,6 +20,12 @@
 //                far into the future; the controller acts while the executor spins over sleeping scripts only
 //                stdout: "<result>:<state>;...R<start result or -99>:<state>:<1 if start() returned>:<CPU ms of the executor thread since the actions>[;N<result>:<state>]"
 //
+//   h_ctl steps  stdin: "<hex sqf text>\t<actions>"   the script may call the nular operators verif_m0__ .. verif_m9__ (registered here):
+//                each appends its digit to the marks, so that the execution of that ONE instruction is visible from outside.
+//                stdout: "<sobs of the loaded script>;<sobs after action 1>;..."   (the whole sequence in one forked child)
+//                sobs = <result>:<state>:<marks so far or ->:<number of frames of context 0>:<hex of the instruction the top frame
+//                       of context 0 executes next, or - at the end of its code>:<its line>:<its file offset>:<pos of every frame>
+//
 //   base:    E = nothing loaded, L = script loaded (never started), F = loaded and run to the end by start,
 //            X = loaded and started (the script is expected to fail: halted_error)
 //   actions: s start, t stop, a abort, p assembly_step, l line_step, v leave_scope
@@ -235,6 +241,37 @@ static void follow(VM& vm, const std::string& acts, size_t i, std::string& out)
     else out += sub;
 }
 
+// ------------------------------------------------------------------ single steps with visible instructions
+static std::string g_marks;
+template<int K> static sqf::runtime::value op_digit(rt_t&) { g_marks.push_back((char)('0' + K)); return {}; }
+static sqf::runtime::sqfop_nular::callback g_digit_ops[10] = { op_digit<0>, op_digit<1>, op_digit<2>, op_digit<3>, op_digit<4>, op_digit<5>, op_digit<6>, op_digit<7>, op_digit<8>, op_digit<9> };
+static std::string step_observe(int res, VM& vm)
+{
+    std::string o = std::to_string(res) + ":" + std::to_string(vm.state()) + ":" + (g_marks.empty() ? "-" : g_marks) + ":";
+    if (vm.rt->context_begin() == vm.rt->context_end()) return o + "0:-:0:0:";
+    auto& ctx = **vm.rt->context_begin();
+    o += std::to_string(ctx.frames_size()) + ":";
+    bool ok = false;
+    if (!ctx.empty())
+    {
+        auto it = ctx.current_frame().peek(ok);
+        if (ok)
+        {
+            auto d = (*it)->diag_info();
+            o += hex((*it)->to_string()) + ":" + std::to_string(d.line) + ":" + std::to_string(d.file_offset) + ":";
+        }
+    }
+    if (!ok) o += "-:0:0:";
+    bool first = true;
+    for (auto it = ctx.frames_rbegin(); it != ctx.frames_rend(); ++it)
+    {
+        if (!first) o += ",";
+        first = false;
+        o += std::to_string((unsigned long long)(it->position() + 1));
+    }
+    return o;
+}
+
 // ------------------------------------------------------------------ concurrent mode
 namespace park
 {
@@ -300,6 +337,24 @@ int main(int argc, char** argv)
                 std::string o = to_base(vm, f[0][0], f[1]);
                 if (o == "PARSEFAIL") return o;
                 follow(vm, f[2], 0, o);
+                return o;
+            }, 60000, CTL_MEM_MB);
+        }
+        else if (mode == "steps" && f.size() == 2)
+        {
+            out = forked([&]() -> std::string {
+                VM vm(0, true);
+                for (int k = 0; k < 10; k++)
+                {
+                    vm.rt->register_sqfop(sqf::runtime::sqfop::nular("verif_m" + std::to_string(k) + "__", "appends its digit to the marks", g_digit_ops[k]));
+                }
+                if (!load_script(vm, f[0])) return "PARSEFAIL";
+                std::string o = step_observe(0, vm);
+                for (char c : f[1])
+                {
+                    int r = do_action(vm, c);
+                    o += ";" + step_observe(r, vm);
+                }
                 return o;
             }, 60000, CTL_MEM_MB);
         }
